@@ -7,6 +7,7 @@ pub mod sqlite;
 pub mod sql;
 pub mod rangemap;
 pub mod collections;
+pub mod task;
 
 /// nondeterministic value: `kani::any()` under Kani, supplied by a native oracle otherwise
 #[cfg(kani)]
